@@ -1,6 +1,7 @@
 package props
 
 import (
+	"fmt"
 	"strings"
 
 	"aurora-verif/checker/core"
@@ -15,7 +16,7 @@ func init() {
 	}, c22)
 	reg("C23", Meta{
 		Technique:   "bad-edge / must-guard reachability on SSA for candidate selection and result classification, must-follow rule for skip accumulation",
-		Explanation: "C23 (closest peer), structural clauses: (G1) in the iteration callback of Kad.ClosestPeer the current candidate is replaced only on paths that did not match the skip list, and only when no candidate exists yet or Closer(target, candidate) reported true; the skip list examined is the function's own skipPeers; (G2) ErrWantSelf is returned only behind closest.Equal(base) and ErrNotFound only behind closest.IsZero() or an empty peer set; self is a candidate only when requested and publicly reachable; (F1) ClosestPeers appends every result to the skip list passed to the next round (distinct results). Not decided: XOR-distance minimality (value reasoning about Closer).",
+		Explanation: "C23 (closest peer), structural clauses: (G1) in the iteration callback of Kad.ClosestPeer the current candidate is replaced only on paths that did not match the skip list, and only when no candidate exists yet or Closer(target, candidate) reported true; the skip list examined is the function's own skipPeers; (G2) ErrWantSelf is returned only behind closest.Equal(base) and ErrNotFound only behind closest.IsZero() or an empty peer set; self is a candidate only when requested and publicly reachable; (F1) ClosestPeers appends every result to the skip list passed to the next round (distinct results); (G3) exhaustive scan: the callback never returns stop/jumpToNext = true and returns only after the peer matched the skip list or went through the candidate comparison — every connected, unfiltered peer is compared (an early-stop optimisation, whose correctness would rest on XOR-metric reasoning, is reported for review). Not decided: XOR-distance minimality (value reasoning about Closer).",
 	}, c23)
 	reg("C24", Meta{
 		Technique:   "must-guard reachability and must-precede on SSA, who-may-call enumeration of connected-set mutations",
@@ -312,6 +313,38 @@ func c23(r *core.Run) {
 			"the candidate is replaced only when there is none yet or the peer is closer to the target", "the candidate is replaced without the IsZero / Closer test")
 	})
 	r.Floor("C23.G1", "candidate updates in the callback", n, 2)
+	// G3 exhaustive scan: the callback never asks the iterator to stop or to skip the rest of
+	// a bin, and every peer that is not on the skip list reaches the candidate comparison.
+	// (Whether an early stop is harmless depends on XOR-metric reasoning that is out of
+	// reach: any early stop is reported.)
+	var isZeroCalls []ssa.Instruction
+	for _, c := range core.Calls(cl, "(pkg/boson.Address).IsZero") {
+		if isLoadOf(core.Common(c).Args[0], closestFV) {
+			isZeroCalls = append(isZeroCalls, c)
+		}
+	}
+	nret := 0
+	core.EachInstr(cl, func(_ *ssa.BasicBlock, _ int, in ssa.Instruction) {
+		ret, ok := in.(*ssa.Return)
+		if !ok || len(ret.Results) != 3 {
+			return
+		}
+		nret++
+		stop, okS := core.ConstBool(ret.Results[0])
+		jump, okJ := core.ConstBool(ret.Results[1])
+		r.Check("C23.G3", lsKey("C23.G3", cl, fmt.Sprintf("return #%d keeps iterating", nret)), ret.Pos(), okS && okJ && !stop && !jump,
+			"the callback returns stop=false, jumpToNext=false: every connected peer is examined", "the callback can end the iteration (or skip the rest of a bin) before every peer was compared: a closer peer later in the order is never seen")
+		compared := false
+		for _, z := range isZeroCalls {
+			if core.Precedes(z, ret) {
+				compared = true
+			}
+		}
+		skipped := len(skipHit) > 0 && core.OnlyBehind(cl, ret, skipHit)
+		r.Check("C23.G3", lsKey("C23.G3", cl, fmt.Sprintf("return #%d after comparison or skip", nret)), ret.Pos(), compared || skipped,
+			"the callback returns only after the peer matched the skip list or went through the candidate comparison", "a peer that is not on the skip list is passed over without being compared with the candidate")
+	})
+	r.Floor("C23.G3", "returns of the callback", nret, 2)
 
 	// G2 result classification in ClosestPeer
 	var closestCell ssa.Value
